@@ -87,6 +87,9 @@ func DecryptData(key, data []byte, e etype.EType) ([]byte, error) {
 // DecryptMessage decrypts the message provided using the methods specific to the etype provided as defined in RFC 8009.
 // The integrity of the message is also verified.
 func DecryptMessage(key, ciphertext []byte, usage uint32, e etype.EType) ([]byte, error) {
+	if len(key) != e.GetKeyByteSize() {
+		return nil, fmt.Errorf("incorrect keysize: expected: %v actual: %v", e.GetKeyByteSize(), len(key))
+	}
 	if len(ciphertext) < e.GetConfounderByteSize()+e.GetHMACBitLength()/8 {
 		return nil, errors.New("ciphertext is too short to hold a confounder and a checksum")
 	}
